@@ -7,6 +7,7 @@ import (
 	"bytes"
 	"io"
 	"net/http"
+	"net/url"
 	"time"
 
 	"github.com/anishathalye/porcupine"
@@ -23,6 +24,9 @@ type Engine struct{}
 
 func (Engine) Name() string     { return "rw" }
 func (Engine) Property() string { return "C13" }
+
+// CrossRunState: one Flame instance serves the via-Flame histories of the whole process.
+func (Engine) CrossRunState() bool { return true }
 func (Engine) DistinctRule() string {
 	return "a case = one operation history (1-25 of WriteHeader/Write/Flush/Before/Status/Size/Written) on one NewResponseWriter(method, spy) with its fault plan and, in a third of the runs, a concurrent Status/Written observer under one schedule; " +
 		"distinct = distinct hash of (method, flusher facet, operation+argument+fault sequence, observer interleaving); non-trivial = the history contains at least one operation that triggers a status"
@@ -123,6 +127,27 @@ var model = porcupine.Model{
 	Equal: func(a, b interface{}) bool { return a.(int) == b.(int) },
 }
 
+// histState identifies the history in progress, so that a hook can tell whether it runs on the
+// writer of the history that registered it.
+type histState struct{ foreign int }
+
+var (
+	curHist  *histState
+	histBody func(c flamego.Context)
+	theFlame *flamego.Flame
+)
+
+// rwFlame is the process-wide instance histories run through: one route per method whose
+// handler executes the current history on the context's own ResponseWriter.
+func rwFlame() *flamego.Flame {
+	if theFlame == nil {
+		f := flamego.NewWithLogger(world.Sink{})
+		f.Any("/h", func(c flamego.Context) { histBody(c) })
+		theFlame = f
+	}
+	return theFlame
+}
+
 // badStatus makes one WriteHeader of the history carry a code the underlying writer refuses.
 func badStatus(fg *tape.Stream, ops []op) {
 	if !fg.Chance(200) {
@@ -187,7 +212,7 @@ func (Engine) Run(t *tape.Tape, o eng.Opts) *eng.Result {
 	if !faultFree {
 		fg.Begin("fault")
 		if fg.Chance(300) {
-			q.WPlan = append(q.WPlan, world.WFault{At: fg.Intn(4), Kind: 1 + fg.Intn(2), Keep: fg.Intn(8)})
+			q.WPlan = append(q.WPlan, world.WFault{At: fg.Intn(4), Kind: 1 + fg.Intn(3), Keep: fg.Intn(8)})
 		}
 		for rep := 0; rep < 2; rep++ {
 			if rep == 1 && !fg.Chance(300) {
@@ -220,7 +245,16 @@ func (Engine) Run(t *tape.Tape, o eng.Opts) *eng.Result {
 		fg.End()
 	}
 	spy := world.NewSpy(q)
-	w := flamego.NewResponseWriter(method, spy.WriterFacets(flusher, readerFrom, hijacker))
+	under := spy.WriterFacets(flusher, readerFrom, hijacker)
+	// One history in four runs inside a handler, on the writer flamego itself created for the
+	// request, through one Flame instance that lives as long as the process: whatever the
+	// framework keeps between requests (pooled writers, ...) is then part of the history.
+	viaFlame := !withObserver && !bulk && method != "" && method != "head" && sw.Intn(4) == 1
+	var w flamego.ResponseWriter
+	if !viaFlame {
+		w = flamego.NewResponseWriter(method, under)
+	}
+	me := &histState{}
 
 	var hooks []hookRun
 	recs := make([]opRec, len(ops))
@@ -276,6 +310,10 @@ func (Engine) Run(t *tape.Tape, o eng.Opts) *eng.Result {
 				case opBeforeNested:
 					id := x.HookID
 					w.Before(func(rw flamego.ResponseWriter) {
+						if curHist != me {
+							curHist.foreign++
+							return
+						}
 						sched.Yield(world.SiteBefore)
 						hooks = append(hooks, hookRun{id: id, during: curOp, status: rw.Status(), spyHad: spy.PeekCode()})
 						rw.Before(func(rw2 flamego.ResponseWriter) {
@@ -288,6 +326,10 @@ func (Engine) Run(t *tape.Tape, o eng.Opts) *eng.Result {
 				case opBefore:
 					id, pan := x.HookID, x.HookPanic
 					w.Before(func(rw flamego.ResponseWriter) {
+						if curHist != me {
+							curHist.foreign++ // a hook of an earlier history runs on a later request's writer
+							return
+						}
 						sched.Yield(world.SiteBefore)
 						hooks = append(hooks, hookRun{id: id, during: curOp, status: rw.Status(), spyHad: spy.PeekCode()})
 						if pan {
@@ -338,6 +380,7 @@ func (Engine) Run(t *tape.Tape, o eng.Opts) *eng.Result {
 		}
 	}
 
+	curHist = me
 	var sr *sched.Result
 	if withObserver {
 		cfg := sched.Config{Sched: t.Stream("sched"), Time: t.Stream("time"), MaxSteps: world.StepCap(4000), KeepLog: o.Trace}
@@ -364,7 +407,16 @@ func (Engine) Run(t *tape.Tape, o eng.Opts) *eng.Result {
 		sched.SetSolo(&q.Local)
 		func() {
 			defer func() { recover() }()
-			writer()
+			if viaFlame {
+				histBody = func(c flamego.Context) {
+					w = c.ResponseWriter()
+					writer()
+				}
+				rwFlame().ServeHTTP(under, &http.Request{Method: method, URL: &url.URL{Path: "/h"}, Header: http.Header{}, Proto: "HTTP/1.1", ProtoMajor: 1, ProtoMinor: 1, Host: "sim", RequestURI: "/h"})
+				res.Probes["histories_through_flame"]++
+			} else {
+				writer()
+			}
 		}()
 		if bulk && method != "HEAD" {
 			// more than 2 GiB through the writer, counted but not stored by the spy
@@ -446,6 +498,9 @@ func (Engine) Run(t *tape.Tape, o eng.Opts) *eng.Result {
 		}
 	}
 	_ = firstBodyEv
+	if me.foreign > 0 {
+		viol("hooks-once", itoa(me.foreign)+" BeforeFunc(s) registered on an earlier request's writer ran on this one")
+	}
 	// hooks: at most once; observed Status()==0; before the accepted status; reverse order per trigger
 	seenHook := map[int]int{}
 	for _, h := range hooks {
